@@ -88,6 +88,17 @@ def translate():
         inner = [s for s in n.body if isinstance(s, ast.If)]
         direct = adapter_of(n.body)
         if inner:
+            # the model takes `content` to be the WHOLE text of the file: it must be bound by `content = file_path.read_text(...)`
+            # and by nothing else in this branch
+            binds = [x for st in n.body for x in ast.walk(st) if isinstance(x, (ast.Assign, ast.AugAssign, ast.AnnAssign, ast.NamedExpr))
+                     and any(isinstance(t, ast.Name) and t.id == "content"
+                             for t in (x.targets if isinstance(x, ast.Assign) else [x.target]))]
+            whole = [x for x in binds if isinstance(x, ast.Assign) and isinstance(x.value, ast.Call) and isinstance(x.value.func, ast.Attribute)
+                     and x.value.func.attr == "read_text" and isinstance(x.value.func.value, ast.Name) and x.value.func.value.id == "file_path"
+                     and not x.value.args]
+            if len(binds) != 1 or len(whole) != 1:
+                raise ValueError(f"untranslatable loaders.py:{n.lineno}: `content` of the {sfx[0]} branch is not the whole file "
+                                 f"(`content = file_path.read_text()`); detection would not be a function of the file's text")
             content_cascades[sfx[0]] = cascade(inner[0])
             for s in sfx:
                 suffixes.append((s, "content:" + sfx[0]))
